@@ -23,33 +23,50 @@ ASSUMPTIONS = ["json_bool values are 0/1 (json_object_new_boolean/set_boolean ar
 TRUSTED = ["glibc strtoll/strtoull/strtod (their Lean references are compared with them on every run: `libc` ops)",
            "IEEE-754 decoding of a 64-bit pattern (Dbl.decode)"]
 
-# Genuine defects found on the tree this check was built against (see DESIGN.md section 5: each needs
-# a `fix:` commit in /repo or an entry in KNOWN_FINDINGS.json keyed by `tag`).
+# Deviations of the code from json_object.h that are recorded as known findings (KNOWN_FINDINGS.json
+# is maintained by the main session from this list): the model takes the same branch and logs `tag`.
+KNOWN = [
+    dict(property="C10", id="C10-getdouble-string-overflow", tag="num.get_double.string-overflow-zero",
+         site="json_object.c json_object_get_double, case json_type_string: "
+              "`if ((HUGE_VAL == cdouble || -HUGE_VAL == cdouble) && (ERANGE == errno)) cdouble = 0.0;`",
+         witness="getd s3165393939   (json_object_get_double of the string node \"1e999\": 0.0, errno ERANGE)",
+         description="json_object_get_double of text too big for a double returns 0.0 with ERANGE; json_object.h documents "
+                     "\"the closest infinity with errno set to ERANGE\" (tests/test_set_value.c pins 0.0)"),
+    dict(property="C10", id="C10-getdouble-array-doc", tag="num.get_double.array-doc",
+         site="json_object.c json_object_get_double, `default: errno = EINVAL; return 0.0;` reached for json_type_array",
+         witness="getd []   /   getd [d3ff8000000000000]   /   getd [i1,i2]   (all: 0.0, errno EINVAL)",
+         description="json_object_get_double of an array returns 0.0 with EINVAL; json_object.h documents [] = 0 without error, "
+                     "[x] = the conversion of x, longer arrays = NaN with EINVAL (paragraph not implemented)"),
+]
+
+# Defects found while building this check (each with the failing input); the first two were repaired by
+# `fix:` commits in /repo (5dafb0c, 63b70b6) and their clauses/tags removed from the model, the last two are KNOWN above.
 DEFECTS = [
-    dict(tag="num.parse_uint64.ws-minus-wraps",
+    dict(tag="num.parse_uint64.ws-minus-wraps (fixed, tag removed)",
          input="get s092d31   (string node \"\\t-1\"; also \"\\n-1\", \" \\t-5\", parseu64 092d31)",
          observed="json_object_get_uint64 = 18446744073709551615, errno 0; json_parse_uint64(\"\\t-1\") = 0 with *retval = UINT64_MAX",
          expected="0 (negative text has no uint64 conversion; never a wrapped value), json_parse_uint64 returns 1",
          suggested_fix="json_util.c json_parse_uint64: skip white space with isspace((unsigned char)*buf) (what strtoull skips) "
                        "instead of only ' ' before the `if (*buf == '-') return 1;` test"),
-    dict(tag="num.parse_uint64.neg-errno-unset",
+    dict(tag="num.parse_uint64.neg-errno-unset (fixed, tag removed)",
          input="get s2d31   (string node \"-1\"; any text whose first non-blank byte is '-', except a negative zero)",
          observed="json_object_get_uint64 = 0 with errno 0 (json_parse_uint64 returns 1 before setting errno)",
-         expected="errno EINVAL (\"If no conversion exists then 0 is returned and errno is set to EINVAL\") or ERANGE "
-                  "(\"Sets errno to ERANGE if the value exceeds the range of uint64\"), as for an int64-typed node holding -1",
+         expected="errno EINVAL (\"If no conversion exists then 0 is returned and errno is set to EINVAL\") or ERANGE",
          suggested_fix="json_util.c json_parse_uint64: `if (*buf == '-') { errno = EINVAL; return 1; }`"),
     dict(tag="num.get_double.string-overflow-zero",
          input="getd s3165393939   (string node \"1e999\"; any text whose value overflows a double)",
          observed="json_object_get_double = 0.0, errno ERANGE",
          expected="+infinity (resp. -infinity), errno ERANGE: json_object.h \"If the value is too big to fit in a double, then the value "
                   "is set to the closest infinity with errno set to ERANGE\"",
-         suggested_fix="json_object.c json_object_get_double: drop the `cdouble = 0.0` on (+-HUGE_VAL && ERANGE), or correct the header"),
+         suggested_fix="json_object.c json_object_get_double: drop the `cdouble = 0.0` on (+-HUGE_VAL && ERANGE), or correct the header "
+                       "(the unedited suite pins 0.0: known finding)"),
     dict(tag="num.get_double.array-doc",
          input="getd []   /   getd [d3ff8000000000000]   /   getd [i1,i2]",
          observed="0.0 with errno EINVAL for every array",
          expected="json_object.h: \"Arrays of length 0 are interpreted as 0 (with no error flags set). Arrays of length 1 are effectively "
                   "cast to the equivalent object ... All other arrays set the error to EINVAL & return NaN\"",
-         suggested_fix="implement the documented array rule in json_object_get_double, or delete the paragraph from json_object.h"),
+         suggested_fix="implement the documented array rule in json_object_get_double, or delete the paragraph from json_object.h "
+                       "(known finding)"),
 ]
 
 MANIFEST = dict(
@@ -58,8 +75,9 @@ MANIFEST = dict(
          "double pattern (decoded exactly to +-num/den | inf | nan) and every string, no accessor performs an undefined double->integer "
          "conversion or a signed overflow (get*_no_fault, inc_no_fault); each returns clamp lo hi (truncToZero v) with errno ERANGE exactly "
          "when v lies outside the type, the documented NaN sentinels with EINVAL, and for strings the clamped exact value of the strtoll "
-         "grammar (get*_spec; uint64-from-string and double-from-string/array are proved up to four tagged deviations from the header, "
-         "each with a decided counter-example); set-then-get in the own type is the identity (set_get_roundtrip); int_inc adds exactly, "
+         "grammar, a negative text read as uint64 being 0 with EINVAL whatever white space precedes the sign (get*_spec; json_object_get_double "
+         "is proved up to two tagged deviations from the header - overflowing text, arrays - each a known finding with a decided "
+         "counter-example); set-then-get in the own type is the identity (set_get_roundtrip); int_inc adds exactly, "
          "saturating at INT64_MIN/UINT64_MAX and switching representation exactly when needed (inc_exact); (double)int is exact below "
          "2^53 and within half an ulp above.  The comparison operators guarding the casts are regenerated from the source on every run and "
          "consulted by the model; model, spec and the ASan/UBSan(float-cast-overflow) build of the code are compared on the boundary "
@@ -316,6 +334,75 @@ def chunks(lines, n):
         yield {"lines": lines[i:i + n]}
 
 
+# ------------------------------------------------------------------ known findings: witnesses at low frequency
+_FLOAT_DEC = re.compile(rb"[ \t\n\v\f\r]*([+-]?(?:[0-9]+\.?[0-9]*|\.[0-9]+)(?:[eE][+-]?[0-9]+)?)")
+_FLOAT_HEX = re.compile(rb"[ \t\n\v\f\r]*([+-]?0[xX](?:[0-9a-fA-F]+\.?[0-9a-fA-F]*|\.[0-9a-fA-F]+)(?:[pP][+-]?[0-9]+)?)")
+
+
+def text_overflows_double(t):
+    """does strtod consume the whole C string `t` and overflow?  (exact: Python's conversions are correctly rounded)"""
+    t = t.split(b"\x00")[0]
+    m = _FLOAT_HEX.fullmatch(t)
+    if m:
+        try:
+            float.fromhex(m.group(1).decode())
+            return False
+        except OverflowError:
+            return True
+    m = _FLOAT_DEC.fullmatch(t)
+    if m:
+        txt = m.group(1).decode()
+        # keep the exponent small enough for Python's parser; the sign of a huge exponent decides
+        mm = re.fullmatch(r"([+-]?[0-9.]+)[eE]([+-]?)([0-9]+)", txt)
+        if mm and len(mm.group(3)) > 6:
+            mant = mm.group(1).lstrip("+-").replace(".", "").strip("0")
+            return mant != "" and mm.group(2) != "-"
+        return float(txt) in (float("inf"), float("-inf"))
+    return False
+
+
+def known_trigger(line):
+    """the known-finding tag this op line makes the model log, or None"""
+    w = line.split(" ")
+    if w[0] in ("get", "getd", "setd") and len(w) > 1:
+        node = w[1]
+        if node.startswith("["):
+            return "num.get_double.array-doc"
+        if node.startswith("s") and w[0] != "setd":
+            t = b"" if node == "s-" else bytes.fromhex(node[1:])
+            if text_overflows_double(t):
+                return "num.get_double.string-overflow-zero"
+    return None
+
+
+WITNESSES_PER_TAG = 4
+
+
+def thin_known(lines):
+    """Known findings must stay rare (the runner stops collecting after 20 divergences): keep a few witnesses per
+    tag, each as a case of its own; every other triggering line is replaced by the accessors that do not trigger."""
+    out, singles, seen = [], [], {}
+    for l in lines:
+        tag = known_trigger(l)
+        if tag is None:
+            out.append(l)
+            continue
+        seen[tag] = seen.get(tag, 0) + 1
+        if seen[tag] <= WITNESSES_PER_TAG:
+            singles.append(l)
+            continue
+        w = l.split(" ")
+        if w[0] == "get":
+            out += ["geti " + w[1], "geti64 " + w[1], "getu64 " + w[1], "getb " + w[1]]
+            if w[1].startswith("s"):
+                out.append("libc strtod " + w[1][1:])
+        elif w[0] == "getd" and w[1].startswith("s"):
+            out.append("libc strtod " + w[1][1:])
+        elif w[0] == "setd":
+            out.append("setb %s 1" % w[1])
+    return out, singles
+
+
 def gen(rng, tier):
     quick = tier == "quick"
     L = []
@@ -361,13 +448,13 @@ def gen(rng, tier):
             L.append("setd %s %016x" % (n, b))
         L += ["setb %s 0" % n, "setb %s 1" % n]
     # ---- 5. random patterns
-    nrand = 9000 if quick else 900000
+    nrand = 15000 if quick else 900000
     for _ in range(nrand):
         L.append("get i%d" % rand_i64(rng))
         L.append("get u%d" % rand_u64(rng))
         L.append("get d%016x" % rand_dbits(rng))
         L.append("get d%016x" % rand_dbits(rng))
-    nstr = 4000 if quick else 200000
+    nstr = 6000 if quick else 200000
     for _ in range(nstr):
         t = rand_text(rng)
         L.append("get " + snode(t))
@@ -383,7 +470,7 @@ def gen(rng, tier):
         elif k < 0.75:
             L.append("parseu64 " + hexs(t))
     # decimal <-> binary: focused strtod validation (short decimals, many digits, ties, subnormal range)
-    nfd = 3000 if quick else 150000
+    nfd = 5000 if quick else 150000
     for _ in range(nfd):
         k = rng.random()
         if k < 0.3:
@@ -407,12 +494,12 @@ def gen(rng, tier):
         if b"inf" in t or b"nan" in t:
             continue
         L.append("libc strtod " + hexs(t))
-    nconv = 3000 if quick else 300000
+    nconv = 5000 if quick else 300000
     for _ in range(nconv):
         L.append("libc i2d %d" % rand_i64(rng))
         L.append("libc u2d %d" % rand_u64(rng))
     # ---- 6. random increments and histories
-    ninc = 4000 if quick else 300000
+    ninc = 8000 if quick else 300000
     for _ in range(ninc):
         node = ("i%d" % rand_i64(rng)) if rng.chance(0.5) else ("u%d" % rand_u64(rng))
         k = rng.choice([1, 1, 1, 2, 4, 8])
@@ -420,7 +507,7 @@ def gen(rng, tier):
         for _ in range(k):
             vs.append(rand_i64(rng) if rng.chance(0.7) else rng.choice([1, -1, I64MAX, I64MIN, I64MIN + 1, 2, -2]))
         L.append("inc %s %s" % (node, " ".join(str(v) for v in vs)))
-    nset = 1000 if quick else 60000
+    nset = 2000 if quick else 60000
     for _ in range(nset):
         node = rng.choice(kinds + ["i%d" % rand_i64(rng), "u%d" % rand_u64(rng), "d%016x" % rand_dbits(rng)])
         k = rng.randrange(5)
@@ -434,5 +521,8 @@ def gen(rng, tier):
             L.append("setd %s %016x" % (node, rand_dbits(rng)))
         else:
             L.append("setb %s %d" % (node, rng.randrange(2)))
+    L, singles = thin_known(L)
+    for l in singles:
+        yield {"lines": [l]}
     for c in chunks(L, 60 if quick else 400):
         yield c
